@@ -14,14 +14,9 @@ def _sh(s):
     return s.replace("ReMatcher::", "")
 
 
-def _rec(d, key, good, msg, loc):
-    d.setdefault(key, [True, msg, loc])
-    if not good:
-        d[key] = [False, msg, loc]
+from ..engine import rec as _rec, emit as _emit, checked  # noqa: E402
 
 
-def _emit(d):
-    return [ok(k) if g else bad(k, m, l) for k, (g, m, l) in sorted(d.items())]
 
 
 def expansion_paths(ctx):
@@ -215,7 +210,7 @@ def repl_accessor(ctx):
     d = {}
     S = "get_paren_start(a1, a2)"
     E = "get_paren_end(a1, a2)"
-    for p in ctx.walk(b).paths:
+    for p in checked(d, "get_paren", b, ctx.walk(b).paths):
         gs, r = summarize(p)
         gs = [_sh(strip_ver(g)) for g in gs]
         r = _sh(strip_ver(r))
